@@ -598,6 +598,9 @@ func Exists(vars []*Term, body *Term) *Term {
 // ---------- printing ----------
 
 func quoteSym(s string) string {
+	if strings.Contains(s, "|") {
+		s = strings.ReplaceAll(s, "|", "_")
+	}
 	for _, c := range s {
 		if !(c >= 'a' && c <= 'z' || c >= 'A' && c <= 'Z' || c >= '0' && c <= '9' || c == '_' || c == '.' || c == '$' || c == '!') {
 			return "|" + s + "|"
